@@ -16,10 +16,16 @@
 (* "Stream bytes" below): stale bytes survive in released sectors, new      *)
 (* regular sectors are zeroed when allocated, mini sectors are not, and     *)
 (* set_len scrubs what it exposes - InvData / ZeroExposure of MC_Phys.      *)
-(* Not modelled: timestamps, CLSIDs, state bits, colours (always black),   *)
-(* I/O errors (CfbFault).                                                  *)
+(* Every directory entry also carries its colour, CLSID, state bits and    *)
+(* the two timestamps (opaque tokens in the format of the raw decode): the *)
+(* setters, the times a new storage gets, what removal does to colours     *)
+(* (an entry that moves to a new place in the sibling tree is coloured     *)
+(* black, so that a red entry of a tree written by another implementation  *)
+(* never ends up next to another red one) and the fact that every other    *)
+(* operation leaves them alone - "Metadata" below; C17 at design level.    *)
+(* Not modelled: I/O errors (CfbFault).                                    *)
 (***************************************************************************)
-EXTENDS Naturals, Integers, Sequences, FiniteSets, TLC
+EXTENDS Naturals, Integers, Sequences, FiniteSets, TLC, IOUtils
 
 CONSTANTS SectorLen,    \* bytes per sector
           MiniLen,      \* bytes per mini sector
@@ -37,6 +43,8 @@ CONSTANTS SectorLen,    \* bytes per sector
           Scrub           \* TRUE: set_len zeroes what it exposes (repaired); FALSE: the pinned commit
 
 DifatPer == FatPer - 1
+(* self-test switch of MC_RB: FALSE = removal as before fix 2f450ff (colours never touched) *)
+Recolor == "NORECOLOR" \notin DOMAIN IOEnv
 FREE   == -1
 ENDC   == -2
 FATM   == -3
@@ -49,10 +57,23 @@ KStorage == 1
 KStream  == 2
 KRoot    == 5
 
-Unalloc == [name |-> "", kind |-> KUnalloc, left |-> NO, right |-> NO, child |-> NO, start |-> 0, size |-> 0]
+(* colour byte, CLSID, state bits, timestamps: as the raw decoder prints them *)
+BLACK    == 1
+RED      == 0
+NilC     == "00000000000000000000000000000000"
+ZeroBits == "00000000"
+ZT       == <<0, 0, 0>>
+
+(* DirEntry::unallocated(): all zero (colour byte 0 = red) except the three links *)
+Unalloc == [name |-> "", kind |-> KUnalloc, left |-> NO, right |-> NO, child |-> NO, start |-> 0, size |-> 0,
+            color |-> RED, clsid |-> NilC, bits |-> ZeroBits, ct |-> ZT, mt |-> ZT]
+(* DirEntry::new: black, nil CLSID, no state bits; the timestamp is set by the caller (NewEntryAt) *)
 NewEntry(name, kind) ==
   [name |-> name, kind |-> kind, left |-> NO, right |-> NO, child |-> NO,
-   start |-> IF kind = KStorage THEN 0 ELSE ENDC, size |-> 0]
+   start |-> IF kind = KStorage THEN 0 ELSE ENDC, size |-> 0,
+   color |-> BLACK, clsid |-> NilC, bits |-> ZeroBits, ct |-> ZT, mt |-> ZT]
+(* the allocation-level part of an entry (what CfbFault, which has no metadata, also holds) *)
+Core(e) == [name |-> e.name, kind |-> e.kind, left |-> e.left, right |-> e.right, child |-> e.child, start |-> e.start, size |-> e.size]
 
 (* CompoundFile::create_with_version: header, one FAT sector, one directory  *)
 (* sector holding the root entry                                              *)
@@ -284,10 +305,15 @@ RemoveEntry(p, parent, name) ==
             ELSE p
       p2 == IF two THEN SetE(p1, pr.id, [E(p1, pr.id) EXCEPT !.right = r]) ELSE p1
       repl == IF l = NO THEN r ELSE IF r = NO THEN l ELSE pr.id
-      p3 == IF viaChild THEN SetE(p2, parent, [E(p2, parent) EXCEPT !.child = repl])
-            ELSE IF E(p2, owner).left = id
-                 THEN SetE(p2, owner, [E(p2, owner) EXCEPT !.left = repl])
-                 ELSE SetE(p2, owner, [E(p2, owner) EXCEPT !.right = repl])
+      \* entries that move to a new place in the tree are coloured black (Relink::Black): the predecessor's left
+      \* child when it is handed to the predecessor's old parent, and the replacement itself
+      predLeft == IF two /\ pr.par # id THEN E(p, pr.id).left ELSE NO
+      p2b == IF Recolor /\ predLeft # NO THEN SetE(p2, predLeft, [E(p2, predLeft) EXCEPT !.color = BLACK]) ELSE p2
+      p2c == IF Recolor /\ repl # NO THEN SetE(p2b, repl, [E(p2b, repl) EXCEPT !.color = BLACK]) ELSE p2b
+      p3 == IF viaChild THEN SetE(p2c, parent, [E(p2c, parent) EXCEPT !.child = repl])
+            ELSE IF E(p2c, owner).left = id
+                 THEN SetE(p2c, owner, [E(p2c, owner) EXCEPT !.left = repl])
+                 ELSE SetE(p2c, owner, [E(p2c, owner) EXCEPT !.right = repl])
   IN SetE(p3, id, Unalloc)
 
 ---------------------------------------------------------------------------
@@ -398,6 +424,21 @@ ResizeT(p, id, newLen) ==
                      PutBytes(q, FALSE, ch2, e.size, Const(upto - e.size, 0))                         \* 3c: the rest of the old final sector
                 ELSE q)
 SetLenT(p, id, n) == IF n = E(p, id).size THEN p ELSE ResizeT(p, id, n)
+
+---------------------------------------------------------------------------
+(* Metadata (lib.rs: set_storage_clsid, set_state_bits, set_created_time,    *)
+(* set_modified_time, touch; directory.rs: with_dir_entry_mut rewrites the   *)
+(* whole entry).  Values are opaque tokens.  The time setters leave stream   *)
+(* entries alone; set_storage_clsid on a stream is refused before it gets    *)
+(* here (CfbTree decides refusals).                                          *)
+SetClsid(p, id, c) == SetE(p, id, [E(p, id) EXCEPT !.clsid = c])
+SetBits(p, id, b)  == SetE(p, id, [E(p, id) EXCEPT !.bits = b])
+SetCTime(p, id, t) == IF E(p, id).kind = KStream THEN p ELSE SetE(p, id, [E(p, id) EXCEPT !.ct = t])
+SetMTime(p, id, t) == IF E(p, id).kind = KStream THEN p ELSE SetE(p, id, [E(p, id) EXCEPT !.mt = t])
+(* insert_dir_entry stamps a new STORAGE with the current time (both fields); streams get zero times *)
+CreateStorageAt(p, parent, name, now) ==
+  LET r == InsertEntry(p, parent, name, KStorage) IN SetE(r.p, r.id, [E(r.p, r.id) EXCEPT !.ct = now, !.mt = now])
+MetaOf(e) == <<e.color, e.clsid, e.bits, e.ct, e.mt>>
 
 ---------------------------------------------------------------------------
 (* API level, in terms of (parent slot, name)                                *)
